@@ -23,6 +23,7 @@ def run(ctx):
                         "the table is used only inside decode (checked: C18-R2)"]
     res.not_decided += ["allocator-level memory", "the pending-byte bound as arithmetic (only: growth happens where a copy of the same length follows)"]
     D.rule_segtype_subject(res, "C17-R1", m)
+    D.rule_classifier_reads_type_only(res, "C17-R1", m)
     res.rule("C17-R4", "entries are opened and dropped by real messages only: the message loop steps by each message's wire length (stride = payload "
                         "length + 16 as a linear form, taken from a packet whose payload buffer holds exactly the wire bytes — shared with C04-R2/R6)")
     n = D.rule_loop_typestate(res, "C17-R1", m)
